@@ -229,16 +229,26 @@ def run_case(tap, g, idx, spec):
         nm = int(g.choice([12, 24]))
         if nm * 744.0 * 3600.0 > 19.0 * ts_est:
             nm = 12
-        ghe2 = GG.make_ghe(ph, coords, H, flow, loads, nm, rgen=g, real_g=False)
+        # the hourly loads are handed over as the list they are, or as a float64 array (what numpy users pass); the simulation is
+        # run twice on the same object: both runs must reproduce the superposition of the loads as given
+        loads_given = tuple(float(x) for x in loads)
+        # (arrays only for one-year horizons: for longer ones the tool repeats the profile with `list * n_years`, which scales an array
+        #  instead - the constructor documents a list, so that is logged as an observation, not judged)
+        as_array = bool(g.random() < 0.5) and nm == 12
+        loads_arg = np.asarray(loads_given, dtype=np.float64) if as_array else loads
+        ghe2 = GG.make_ghe(ph, coords, H, flow, loads_arg, nm, rgen=g, real_g=False)
         P2 = params_of(ghe2)
         tap.pop()
         with warnings.catch_warnings():
             warnings.simplefilter("ignore")
             mx2, mn2 = ghe2.simulate(method=TimestepType.HOURLY)
+            first_run = np.array(ghe2.hp_eft, dtype=float)
+            mx2, mn2 = ghe2.simulate(method=TimestepType.HOURLY)
         calls = tap.pop()
-        c = calls[0]
+        c = calls[-1]
+        stats["hourly_runs_on_float_arrays"] = 1 if as_array else 0
         nh = int(nm / 12.0 * 8760.0)
-        qd = -np.array(loads * (nm // 12), dtype=float)
+        qd = -np.array(list(loads_given) * (nm // 12), dtype=float)
         td = np.arange(1, nh + 1, dtype=float)
         exp_d, _ = eft(qd, td, c["gx"], c["gy"], **P2)
         span_d = max(1.0, float(np.max(np.abs(exp_d - P2["tg"]))))
@@ -246,7 +256,10 @@ def run_case(tap, g, idx, spec):
         stats["hourly_err"] = e3
         stats["hourly_steps"] = nh
         if e3 > 1e-9:
-            bad("hourly-simulation-differs-from-superposition", f"max |dT| / span = {e3:.3g} over {nh} hours")
+            bad("hourly-simulation-differs-from-superposition", f"max |dT| / span = {e3:.3g} over {nh} hours (second run on the object{', loads given as a float64 array' if as_array else ''})")
+        e3a = compare(first_run, exp_d, span_d)
+        if e3a > 1e-9:
+            bad("hourly-simulation-differs-from-superposition", f"max |dT| / span = {e3a:.3g} over {nh} hours (first run{', loads given as a float64 array' if as_array else ''})")
     both_signs = sign_mode in (0, 3) and (n >= 10 or axis == 5)
     return v, stats, case, both_signs
 
